@@ -35,9 +35,14 @@ def leaf_atoms(e, out=None):
         leaf_atoms(e.args[0], out)
     elif isinstance(e, E) and e.op == 'const':
         pass
+    elif isinstance(e, E) and e.op in _DUAL and len(e.args) == 2:
+        out.add(E(_DUAL[e.op], e.args, w=1).canon())          # `a != b` is the leaf `a == b` negated, `a < K` is `a >= K` negated
     else:
         out.add(e.canon() if isinstance(e, E) else str(e))
     return out
+
+
+_DUAL = {'!=': '==', '<': '>='}
 
 
 def eval_bool(e, asg):
@@ -49,6 +54,9 @@ def eval_bool(e, asg):
     if isinstance(e, E):
         if e.op == 'const':
             return bool(e.val)
+        if e.op in _DUAL and len(e.args) == 2:
+            v = asg.get(E(_DUAL[e.op], e.args, w=1).canon())
+            return None if v is None else (not v)
         if e.op == '~' and _boolish(e.args[0]):
             v = eval_bool(e.args[0], asg)
             return None if v is None else (not v)
